@@ -15,6 +15,10 @@ History kinds (the `names` sent and what differs between A's and B's files):
     k2  names=schedules            trips dropped / times moved only (what `schedules` re-reads: the per-line files)
     k3  names=scenarios,schedules  trips / times / scenario 2
     k6  names=schedules,scenarios  the same with the schedules named FIRST (the handler reloads in the order given)
+    k7  names=scenarios            only the scenario file changes: B = A WITHOUT scenario 2, then (instead of A again) A with scenario 2
+                                   back under ANOTHER definition -- a set cached for a scenario that disappeared must not be served
+                                   when its uuid returns (not among the refreshes C15 names; it holds on the code as it is and
+                                   keeps C02's "only trips the queried scenario admits" honest across scenario reloads)
     k4  names=all                  A is written WITHOUT one kind of files (S starts not ready: data_error), B is complete
     k5  names=all                  A complete, B is written WITHOUT one kind of files (S must start answering data_error)
 Both connection-cache modes (--cacheAllConnectionSets false / true).  Q = 10 requests over scenarios 1, 2, 3 (the last one on scenario 2): route, route
@@ -32,11 +36,11 @@ from concurrent.futures import ThreadPoolExecutor
 sys.path.insert(0, os.path.dirname(os.path.abspath(__file__)))
 import build, gen, l3  # noqa: E402
 
-KINDS = ("k1", "k2", "k3", "k4", "k5", "k6")
-NAMES = {"k1": "all", "k2": "schedules", "k3": "scenarios,schedules", "k4": "all", "k5": "all", "k6": "schedules,scenarios"}
+KINDS = ("k1", "k2", "k3", "k4", "k5", "k6", "k7")
+NAMES = {"k1": "all", "k2": "schedules", "k3": "scenarios,schedules", "k4": "all", "k5": "all", "k6": "schedules,scenarios", "k7": "scenarios"}
 # what can be left out of a cache directory, and the data status a server started on the rest reports
 OMITTABLE = ("lines", "paths", "schedules", "scenarios", "agencies", "services", "nodes")
-QUICK_PLAN = [("k1", False), ("k2", True), ("k3", False), ("k4", True), ("k5", False), ("k4", False), ("k5", True), ("k1", True), ("k6", False), ("k6", True)]
+QUICK_PLAN = [("k1", False), ("k2", True), ("k3", False), ("k4", True), ("k5", False), ("k4", False), ("k5", True), ("k1", True), ("k6", False), ("k6", True), ("k7", False), ("k7", True)]
 QUICK_OMITS = {3: "lines", 4: "paths", 5: "schedules", 6: "lines"}      # history index -> kind of files left out
 
 
@@ -178,9 +182,30 @@ def history_spec(seed, tier, index):
     rng = gen.Rng((seed * 7919 + 15) * 1000 + index)
     prof = dict(gen.PROFILES["opt"], pempty=0.02)
     A = gen.gen_dataset(rng.fork(), prof)
-    B = modify(rng.fork(), A, scen_too=(kind != "k2"), new_line=(kind in ("k1", "k4")), force_scen=(kind in ("k3", "k6")))
+    A_back = None
+    if kind == "k7":
+        B = copy.deepcopy(A)
+        B.scens = [sc for sc in B.scens if sc[0] != 2]
+        A_back = copy.deepcopy(A)
+        old2 = [ls for (sid, ls) in A.scens if sid == 2][0][0]
+        new2 = [2] if 1 in old2 else [1]
+        A_back.scens = [(sid, ([new2] + [list(x) for x in ls[1:]]) if sid == 2 else ls) for (sid, ls) in A_back.scens]
+        rng.fork()
+    else:
+        B = modify(rng.fork(), A, scen_too=(kind != "k2"), new_line=(kind in ("k1", "k4")), force_scen=(kind in ("k3", "k6")))
     reqs = make_requests(rng.fork(), A, prof)
-    return dict(index=index, kind=kind, cache_all=cache_all, omit=omit, names=NAMES[kind], A=A, B=B, requests=reqs)
+    if kind in ("k3", "k6", "k7"):
+        # requests on scenario 2 that its NEW definition can serve: planned on the trips of the services it names after the
+        # refresh (otherwise old and new definition often both answer "no route" and a stale set cannot be told from a fresh one)
+        final = A_back if kind == "k7" else B
+        new2 = [ls for (sid, ls) in final.scens if sid == 2][0][0]
+        sub = copy.deepcopy(final)
+        sub.trips = [t for t in sub.trips if t[2] in new2] or sub.trips
+        r2 = rng.fork()
+        for (q, acc, egr) in l3._gen_queries(gen, r2, sub, prof, 3):
+            q = dict(q); q["scen"] = 2
+            reqs.append(dict(kind="route", path=l3.route_qs(q, False), acc=acc, egr=egr, scen=2, fwd=q["fwd"]))
+    return dict(index=index, kind=kind, cache_all=cache_all, omit=omit, names=NAMES[kind], A=A, B=B, A_back=A_back, requests=reqs)
 
 
 def run_history(binary, spec, workdir, keep_on_failure=True):
@@ -234,7 +259,16 @@ def run_history(binary, spec, workdir, keep_on_failure=True):
             fail("the refreshed server died", phase="A->B", exit_status=old.exit_status(), log=old.crash_report())
         else:
             # ---- B -> A: the start-up answers a0 are the fresh server's answers on these files --------------------
-            l3.write_cache(A, cache, omit=omit_a)
+            if spec.get("A_back") is not None:
+                # (k7) not A itself but A with scenario 2 redefined: the reference is a server newly started on THOSE files
+                l3.write_cache(spec["A_back"], cache, omit=omit_a)
+                fresh = l3.Server(binary, cache, stub.port, threads=1, cache_all=cache_all)
+                a0 = ask_all(fresh, stub, reqs)
+                fresh.stop()
+                fresh = None
+                base["dataset_A_back"] = spec["A_back"].text()
+            else:
+                l3.write_cache(A, cache, omit=omit_a)
             ok, reply = update(old, names)
             if not ok:
                 fail("the reply of /updateCache?names=%s is not the success object" % names, phase="B->A", update_reply=reply)
